@@ -51,6 +51,9 @@ class CGenerator:
         return n.name
 
     def visit_Pragma(self, n: c_ast.Pragma) -> str:
+        if isinstance(n.string, c_ast.Node):
+            # the _Pragma("...") operator: its operand is a string literal node
+            return "_Pragma(" + self.visit(n.string) + ")"
         ret = "#pragma"
         if n.string:
             ret += " " + n.string
